@@ -108,6 +108,7 @@ def history(chk, cl, bk, w, rnd, n_ops):
     kidx = {k: i for i, k in enumerate(allkeys)}
     path = lambda k: "/%s/%s" % (bk, k)
     uids = []                 # (uid string) by model uid number
+    keyof = {}                # uid number -> key it was issued for
     live = {}                 # uid number -> {"key", "meta", "parts": {n: (pieces, etag string)}, "hist": {n: [(pieces, etag)]}}
     objects = {}              # key -> (bytes md5, length, etag, meta index)   (Spec tracker: what an acknowledged write put there)
     big = w.new_base(MIN + 4096)
@@ -138,12 +139,14 @@ def history(chk, cl, bk, w, rnd, n_ops):
         withp = sorted(u for u in live if len(live[u]["parts"]) >= 2) or sorted(u for u in live if live[u]["parts"])
         if want_parts and withp and x < 0.8:
             u = rnd.choice(withp); return u, uids[u], live[u]["key"]
-        if live and x < 0.86:
+        if live and x < 0.82:
             u = rnd.choice(sorted(live)); return u, uids[u], live[u]["key"]
-        if live and x < 0.91:        # a real id presented with another key
+        if live and x < 0.87:        # a real id presented with another key
             u = rnd.choice(sorted(live)); return u, uids[u], rnd.choice([k for k in KEYS if k != live[u]["key"]])
-        if uids and x < 0.96:        # an id that is finished (or live)
-            u = rnd.randrange(len(uids)); return u, uids[u], rnd.choice(KEYS)
+        if uids and x < 0.96:        # an id that is finished (or live), mostly with the key it was issued for
+            dead = [i for i in range(len(uids)) if i not in live]
+            u = rnd.choice(dead) if dead and rnd.random() < 0.7 else rnd.randrange(len(uids))
+            return u, uids[u], (keyof.get(u) if rnd.random() < 0.7 and u in keyof else rnd.choice(KEYS))
         return 9999, str(uuid.UUID(int=rnd.getrandbits(128))), rnd.choice(KEYS)
 
     def new_part_data():
@@ -174,12 +177,15 @@ def history(chk, cl, bk, w, rnd, n_ops):
             r = cl.req("POST", path(k), query={"uploads": ""}, headers=hd)
             if r.status != 200 or r.xml() is None:
                 viol("create-failed", "CreateMultipartUpload of %r answered %d %s" % (k, r.status, r.code)); continue
-            u = len(uids); uids.append(r.xml().findtext("UploadId")); live[u] = {"key": k, "meta": m, "parts": {}, "hist": {}}
+            u = len(uids); uids.append(r.xml().findtext("UploadId")); keyof[u] = k; live[u] = {"key": k, "meta": m, "parts": {}, "hist": {}}
             record("Create %d %d %d" % (kidx[k], m, u), "create %s -> upload#%d" % (k, u), ("ok",))
         elif x < 0.42:
             u, us, k = pick_uid(); n = rnd.choice([1, 1, 1, 2, 2, 2, 3, 3, 5, 10000, 0, 10001, -1]); pieces = new_part_data(); body = w.mat(pieces)
             r = cl.req("PUT", path(k), query={"partNumber": str(n), "uploadId": us}, body=body)
             o = ("part", e2e.etag_clean(r.headers.get("etag")), len(body)) if r.status == 200 else ("err", r.code)
+            if r.status == 200 and not (u in live and live[u]["key"] == k):
+                viol("part-accepted-for-dead-upload", "UploadPart naming upload id %s (%s) for key %r is acknowledged" % (
+                    us, "finished or aborted" if u < len(uids) and u not in live else "in progress for another key" if u in live else "never issued", k))
             record("UploadPart %d %d (%d) %s" % (kidx[k], u, n, coq_data(pieces)), "upload-part %s upload#%d n=%d (%d bytes) -> %s" % (k, u, n, len(body), o[:2]), o)
             if r.status == 200 and u in live and live[u]["key"] == k:
                 live[u]["parts"][n] = (pieces, r.headers.get("etag", "")); live[u]["hist"].setdefault(n, []).append((pieces, r.headers.get("etag", "")))
@@ -193,6 +199,9 @@ def history(chk, cl, bk, w, rnd, n_ops):
             win = spec_range(objects[src][1], rg) if src in objects else None
             if r.status == 200:
                 o = ("part", e2e.etag_clean(et), None)
+                if not (u in live and live[u]["key"] == k):
+                    viol("part-accepted-for-dead-upload", "UploadPartCopy naming upload id %s (%s) for key %r is acknowledged" % (
+                        us, "finished or aborted" if u < len(uids) and u not in live else "in progress for another key" if u in live else "never issued", k))
                 # Spec: the part is exactly the requested window of the source
                 if win is None:
                     viol("copy-range-accepted", "UploadPartCopy from %r (%d bytes) with range %r is acknowledged although the range does not denote bytes of the source" % (src, objects.get(src, (0, 0))[1], rg))
@@ -342,7 +351,7 @@ def run(chk):
                 "(22 range forms incl. open-ended, single byte, exceeding, malformed; sources of 5 MiB+, 100 and 0 bytes and completed objects) / "
                 "list-parts (markers, page sizes) / list-uploads / complete (all, subset, stale / junk / swapped ETags, unordered, duplicate, missing, "
                 "zero part number, x-amz-mp-object-size right and wrong) / abort / get / list-objects over up to five uploads on four keys "
-                "(several per key, ids presented with the wrong key, finished and unknown ids), run against the real gateway and the model; "
+                "(several per key, ids presented with the wrong key, finished and unknown ids), run against the real gateway (xattr and sidecar metadata stores) and the model; "
                 "every answer is compared with the model's and the Spec is evaluated after each completion. Non-trivial: at least one "
                 "completion attempt; distinct by program text.")
     gwbin = gobuild.build_gateway("verif")
@@ -353,19 +362,20 @@ def run(chk):
     w = World()
     hists = []
     n_hist = 40 if quick else 400
-    with gw.Site({"iam": False}, name="c08") as site:
-        g = site.gateway(gwbin)
-        cl = s3c.Client(g.port, "root", "rootsecret")
-        for h in range(n_hist):
-            bk = "mpb%04d" % h
-            chk.require(cl.req("PUT", "/" + bk).status == 200, "c08:setup", "CreateBucket failed")
-            ops, obs, text = history(chk, cl, bk, w, rnd, rnd.randint(12, 40))
-            hists.append((ops, obs, text))
-            chk.case(("hist", tuple(ops)), any(o.startswith("Complete") for o in ops))
-            cl.req("DELETE", "/" + bk)      # (not empty: refused; the site is removed at the end)
-            import shutil, os
-            shutil.rmtree(os.path.join(site.root, bk), ignore_errors=True)
-        chk.tie("gateway still running", g.alive(), g.log_tail())
+    for label, cfg, nh in (("xattr", {"iam": False}, n_hist), ("sidecar", {"iam": False, "meta": "sidecar"}, max(n_hist // 3, 10))):
+        with gw.Site(cfg, name="c08") as site:
+            g = site.gateway(gwbin)
+            cl = s3c.Client(g.port, "root", "rootsecret")
+            for h in range(nh):
+                bk = "mp%s%04d" % (label[0], h)
+                chk.require(cl.req("PUT", "/" + bk).status == 200, "c08:setup", "CreateBucket failed")
+                ops, obs, text = history(chk, cl, bk, w, rnd, rnd.randint(12, 40))
+                hists.append((ops, obs, text))
+                chk.case(("hist", tuple(ops)), any(o.startswith("Complete") for o in ops))
+                cl.req("DELETE", "/" + bk)      # (not empty: refused; the site is removed at the end)
+                import shutil, os
+                shutil.rmtree(os.path.join(site.root, bk), ignore_errors=True)
+            chk.tie("gateway still running (%s)" % label, g.alive(), g.log_tail())
     if not built:
         return
     text = ("From Coq Require Import String List ZArith Bool.\nFrom VGW Require Import Base.GoStr Model.Multipart Check.MultipartCheck.\n"
